@@ -137,6 +137,39 @@ def from_lanes32(ls):
     return v
 
 
+def lanes(v, lw):
+    n = 128 // lw
+    return [tm.extract(v, lw * i + lw - 1, lw * i) if isinstance(v, T) else (v >> (lw * i)) & ((1 << lw) - 1) for i in range(n)]
+
+
+def from_lanes(ls, lw):
+    v = ls[-1]
+    w = lw
+    for l in reversed(ls[:-1]):
+        v = tm.concat_w(v, w, l, lw)
+        w += lw
+    return v
+
+
+def _slt(x, y, lw):
+    """signed less-than on lw-bit lanes"""
+    sb = 1 << (lw - 1)
+    return tm.ult(tm.bv('xor', x, sb, lw), tm.bv('xor', y, sb, lw), lw)
+
+
+LANE_OPS = {}
+for _sfx, _lw in (('B', 8), ('W', 16), ('L', 32), ('Q', 64)):
+    LANE_OPS['PADD' + _sfx] = (_lw, lambda a, b, lw: tm.bv('add', b, a, lw))
+    LANE_OPS['PSUB' + _sfx] = (_lw, lambda a, b, lw: tm.bv('sub', b, a, lw))      # dst = dst - src
+    LANE_OPS['PCMPEQ' + _sfx] = (_lw, lambda a, b, lw: tm.ite(tm.eq(a, b, lw), (1 << lw) - 1, 0, lw))
+    LANE_OPS['PCMPGT' + _sfx] = (_lw, lambda a, b, lw: tm.ite(_slt(a, b, lw), (1 << lw) - 1, 0, lw))   # dst > src (signed)
+LANE_OPS['PMAXUB'] = (8, lambda a, b, lw: tm.ite(tm.ult(a, b, lw), b, a, lw))
+LANE_OPS['PMINUB'] = (8, lambda a, b, lw: tm.ite(tm.ult(a, b, lw), a, b, lw))
+LANE_OPS['PMAXSW'] = (16, lambda a, b, lw: tm.ite(_slt(a, b, lw), b, a, lw))
+LANE_OPS['PMINSW'] = (16, lambda a, b, lw: tm.ite(_slt(a, b, lw), a, b, lw))
+SHIFT_OPS = {'PSLLW': (16, 'shl'), 'PSLLL': (32, 'shl'), 'PSLLQ': (64, 'shl'), 'PSRLW': (16, 'lshr'), 'PSRLL': (32, 'lshr'), 'PSRLQ': (64, 'lshr')}
+
+
 def imm(op):
     if not op.startswith('$'):
         raise AsmError("expected immediate: %s" % op)
@@ -215,6 +248,72 @@ def run(func, args, regions, max_steps=5000):
                 M.x[dst] = tm.bv('and', tm.bvnot(b, 128), a, 128)
             else:
                 M.x[dst] = tm.bv({'PXOR': 'xor', 'PAND': 'and', 'POR': 'or'}[mn], a, b, 128)
+            continue
+        if mn in LANE_OPS and mn not in ('PCMPEQL', 'PCMPEQQ'):
+            src, dst = ops
+            lw, f = LANE_OPS[mn]
+            la, lb = lanes(M.xmm(src), lw), lanes(M.xmm(dst), lw)
+            M.x[dst] = from_lanes([f(x, y, lw) for x, y in zip(la, lb)], lw)
+            continue
+        if mn in SHIFT_OPS and ops[0].startswith('$'):
+            lw, op = SHIFT_OPS[mn]
+            k = imm(ops[0])
+            ls = lanes(M.xmm(ops[1]), lw)
+            M.x[ops[1]] = from_lanes([0 if k >= lw else tm.bv(op, x, k, lw) for x in ls], lw)
+            continue
+        if mn in ('PSLLO', 'PSRLO', 'PSLLDQ', 'PSRLDQ') and ops[0].startswith('$'):
+            k = min(imm(ops[0]), 16) * 8
+            v = M.xmm(ops[1])
+            M.x[ops[1]] = 0 if k >= 128 else tm.bv('shl' if mn in ('PSLLO', 'PSLLDQ') else 'lshr', v, k, 128)
+            continue
+        if mn in ('PUNPCKLQDQ', 'PUNPCKHQDQ'):
+            src, dst = ops
+            a, b = lanes(M.xmm(src), 64), lanes(M.xmm(dst), 64)
+            M.x[dst] = cat128(a[0], b[0]) if mn == 'PUNPCKLQDQ' else cat128(a[1], b[1])
+            continue
+        if mn in ('PUNPCKLLQ', 'PUNPCKHLQ'):
+            src, dst = ops
+            a, b = lanes(M.xmm(src), 32), lanes(M.xmm(dst), 32)
+            M.x[dst] = from_lanes([b[0], a[0], b[1], a[1]] if mn == 'PUNPCKLLQ' else [b[2], a[2], b[3], a[3]], 32)
+            continue
+        if mn in ('XORQ', 'ANDQ', 'ORQ'):
+            src, dst = ops
+            if mn == 'XORQ' and src == dst:
+                M.r[dst] = 0
+                continue
+            v = imm(src) & (2 ** 64 - 1) if src.startswith('$') else M.gpr(src)
+            d = M.gpr(dst)
+            if isinstance(d, tuple) or isinstance(v, tuple):
+                raise AsmError("bitwise operation on a pointer")
+            M.r[dst] = tm.bv({'XORQ': 'xor', 'ANDQ': 'and', 'ORQ': 'or'}[mn], d, v, 64)
+            continue
+        if mn in ('NOTQ', 'NEGQ'):
+            d = M.gpr(ops[0])
+            if isinstance(d, tuple):
+                raise AsmError("%s on a pointer" % mn)
+            M.r[ops[0]] = tm.bvnot(d, 64) if mn == 'NOTQ' else tm.bv('sub', 0, d, 64)
+            continue
+        if mn in ('SHLQ', 'SHRQ') and ops[0].startswith('$'):
+            d = M.gpr(ops[1])
+            if isinstance(d, tuple):
+                raise AsmError("shift of a pointer")
+            k = imm(ops[0]) & 63
+            M.r[ops[1]] = tm.bv('shl' if mn == 'SHLQ' else 'lshr', d, k, 64)
+            continue
+        if mn == 'LEAQ':
+            src, dst = ops
+            mm = re.match(r'^(-?(?:0x[0-9a-fA-F]+|\d+))?\((\w+)\)$', src)
+            if not mm:
+                raise AsmError("unsupported LEAQ operand %s" % src)
+            off = int(mm.group(1), 0) if mm.group(1) else 0
+            b = M.gpr(mm.group(2))
+            M.r[dst] = ('ptr', b[1], b[2] + off) if isinstance(b, tuple) else tm.bv('add', b, off & (2 ** 64 - 1), 64)
+            continue
+        if mn == 'TESTQ':
+            a, b = M.gpr(ops[0]), M.gpr(ops[1])
+            if isinstance(a, tuple) or isinstance(b, tuple):
+                raise AsmError("TESTQ on a pointer")
+            M.cmp = (tm.bv('and', a, b, 64), 0)
             continue
         if mn in ('PCMPEQL', 'PCMPEQQ'):
             src, dst = ops
